@@ -117,6 +117,10 @@ def _random_rto(r, i, big=False):
         prior = {"kind": "gaussian", "form": r.choice(FORMS), "mean": r.choice(["vector", "vector", "scalar", "zero"])}
     k = r.choice([1, 1, 2, 3])
     liks = [_lik(r, n) for _ in range(k)]
+    if pk != "joint" and r.random() < 0.3:
+        prior["k"] = r.choice([-12, -10, -8, -6, -4, 0, 4, 8])
+        for l in liks:
+            l["k"] = r.choice([-12, -10, -8, -6, -4, 0, 4, 8])
     if pk == "gmrf" and prior["bc"] != "zero":
         # make sure the data can pin the (up to 4 dimensional) null space of the improper prior
         liks[0]["m"] = max(liks[0]["m"], 5)
@@ -233,6 +237,76 @@ def cases(tier, seed):
                 pd = r.choice([1, 1, 2]); N = r.randint(3, 7) if pd == 1 else r.choice([2, 3])
                 out.append(_reuse(i, k, "ugla", mutate, pd=pd, N=N, n=N ** pd, bc=bc, loc=("scalar" if mutate == "lmrf_location" else r.choice(["zero", "scalar"])),
                                   m=r.randint(4, 9), model=r.choice(MODELS), noise=r.choice(FORMS), beta=r.choice([1e-5, 1e-3, 1e-1]))); i += 1; k += 1
+        # S: scale axis - overall variance scale 10^k of prior and noise in every matrix form (strong correlations),
+        #    operator and data scaled so that the posterior stays well conditioned
+        KS = [-18, -12, -10, -8, -6, -4, 0, 4, 8, 18]     # +-18: entries of the sqrt forms reach 1e-9 as well
+        MATF = [f for f in FORMS if f.split("_")[1] in ("full", "symfull", "sparse", "triu", "tril", "diag")]
+        sforms = MATF if tier == "quick" else FORMS
+        # unknowns of size >= 1/tol make cuqi.solver.CGLS leave at once (exit |x|*tol >= 1, see the known finding):
+        # outside the premise "solver run to convergence", so prior scales stop at 10^8 (noise scales do not)
+        KP = [kk for kk in KS if kk <= 8]
+        for fi, f in enumerate(sforms):
+            for ki, kk in enumerate(KS):
+                for side in ("prior", "noise"):
+                    n = r.randint(2, 7)
+                    iface = IFACES[(fi + ki + rep + (side == "noise")) % 2]
+                    ko = r.choice(KP if side == "noise" else KS)
+                    liks = [_lik(r, n, noise=(f if side == "noise" else r.choice(FORMS)), m=r.randint(2, 7))]
+                    liks[0]["k"] = kk if side == "noise" else ko
+                    if r.random() < 0.25:
+                        liks.append({**_lik(r, n, m=r.randint(2, 6)), "k": r.choice(KS)})
+                    prior = {"kind": "gaussian", "form": (f if side == "prior" else r.choice(FORMS)), "mean": r.choice(["vector", "vector", "scalar", "zero"]),
+                             "k": min(kk, 8) if side == "prior" else ko}
+                    out.append(_rto(i, iface, n, liks, prior, build=r.choice(["joint", "direct"]))); i += 1
+        for bc in BCS:
+            for kk in KP:
+                order = r.choice([0, 1, 2]); N = _gmrf_n(r, 1, order)
+                out.append(_rto(i, IFACES[(kk // 2 + rep) % 2], N, [{**_lik(r, N, m=r.randint(5, 8)), "k": r.choice(KS)}],
+                                {"kind": "gmrf", "bc": bc, "order": order, "pd": 1, "N": N, "mean": "vector", "k": kk})); i += 1
+        for kk in KP:                                  # the scale axis inside a re-use history as well
+            n = r.randint(2, 6)
+            c = _reuse(i, kk // 2 + rep, "rto", r.choice(["prior_matrix", "noise_matrix"]), n=n, liks=[{**_lik(r, n, noise=r.choice(MATF), m=r.randint(2, 7)), "k": kk}],
+                       prior={"kind": "gaussian", "form": r.choice(MATF), "mean": "vector", "k": kk}); i += 1
+            out.append(c)
+        # I: function-backed models acting on images / 2D fields: Image2D (order C and F, non-square) and Continuous2D
+        #    as domain and as range geometry
+        SHAPES = [(2, 3), (3, 2), (2, 4), (3, 3), (2, 2), (4, 2)]
+        RNGS = [None, "image_C", "image_F", "cont2d"]
+        for oi, order in enumerate(("C", "F")):
+            for ri, rg in enumerate(RNGS):
+                for ii, iface in enumerate(IFACES):
+                    shp = SHAPES[(oi + 2 * ri + ii + rep) % 4]          # non-square
+                    n = shp[0] * shp[1]
+                    def _rngspec(rg):
+                        if rg is None:
+                            return None
+                        rs_ = SHAPES[r.randint(0, len(SHAPES) - 1)]
+                        return {"type": "image", "shape": list(rs_), "order": rg[-1]} if rg.startswith("image") else {"type": "cont2d", "shape": list(rs_)}
+                    liks = []
+                    for _ in range(r.choice([1, 1, 2])):
+                        spec = _rngspec(rg)
+                        mm = r.randint(3, 8) if spec is None else spec["shape"][0] * spec["shape"][1]
+                        liks.append({"m": mm, "model": "function", "noise": r.choice(FORMS), **({"rng": spec} if spec else {})})
+                    c = _rto(i, iface, n, liks, {"kind": "gaussian", "form": r.choice(FORMS), "mean": r.choice(["vector", "scalar"])}, build=r.choice(["joint", "direct"]))
+                    c["dom"] = {"type": "image", "shape": list(shp), "order": order}; i += 1
+                    out.append(c)
+            for bc in BCS:                               # GMRF on a square image of either order
+                N = r.choice([2, 3]); gorder = r.choice([0, 1, 2]) if N == 3 else r.choice([0, 1])
+                spec = _rngspec(RNGS[(BCS.index(bc) + oi + rep) % 4])
+                mm = r.randint(5, 8) if spec is None else max(spec["shape"][0] * spec["shape"][1], 4)
+                if spec is not None and spec["shape"][0] * spec["shape"][1] < 4:
+                    spec = None
+                c = _rto(i, IFACES[(BCS.index(bc) + oi) % 2], N * N, [{"m": mm if spec is None else spec["shape"][0] * spec["shape"][1], "model": "function", "noise": r.choice(FORMS), **({"rng": spec} if spec else {})}],
+                         {"kind": "gmrf", "bc": bc, "order": gorder, "pd": 2, "N": N, "mean": "vector"}, build=r.choice(["joint", "direct"]))
+                c["dom"] = {"type": "image", "shape": [N, N], "order": order}; i += 1
+                out.append(c)
+        for ii, iface in enumerate(IFACES):               # Continuous2D domain
+            shp = SHAPES[(ii + rep) % len(SHAPES)]
+            spec = _rngspec(RNGS[(ii + rep + 1) % 4])
+            c = _rto(i, iface, shp[0] * shp[1], [{"m": (r.randint(3, 8) if spec is None else spec["shape"][0] * spec["shape"][1]), "model": "function", "noise": r.choice(FORMS), **({"rng": spec} if spec else {})}],
+                     {"kind": "gaussian", "form": r.choice(FORMS), "mean": "vector"}, build="direct")
+            c["dom"] = {"type": "cont2d", "shape": list(shp)}; i += 1
+            out.append(c)
     n_rand = 240 if tier == "quick" else 2400
     for _ in range(n_rand):
         out.append(_random_rto(r, i)); i += 1
@@ -270,6 +344,9 @@ def _cfg(case):
         return {"sampler": "UGLA", "iface": case["iface"], "loc": case["loc"], "bc": case["bc"], "pd": case["pd"]}
     p = case["prior"]
     cfg = {"sampler": "LinearRTO", "iface": case["iface"], "build": case["build"], "prior": p["kind"],
+           "prior_k": p.get("k"), "noise_k": "+".join(str(l.get("k")) for l in case["liks"]),
+           "dom": (case["dom"]["type"] + "_" + str(case["dom"].get("order", "")) if case.get("dom") else "vector"),
+           "rng": "+".join((l["rng"]["type"] + "_" + str(l["rng"].get("order", "")) if l.get("rng") else "vector") for l in case["liks"]),
            "k": len(case["liks"]), "models": "+".join(l["model"] for l in case["liks"]),
            "noise_forms": "+".join(l["noise"] for l in case["liks"])}
     if p["kind"] == "gaussian":
@@ -319,6 +396,12 @@ def _gen_form(rs, form, n, s):
     elif shape in ("full", "symfull"):
         if fam == "sqrtprec":                      # genuinely non-symmetric square root
             v = t * (_orth(rs, n) * np.exp(rs.uniform(np.log(0.5), np.log(2.0), n))) @ _orth(rs, n).T
+        elif rs.uniform() < 0.5:                   # strongly correlated (AR(1)-type) matrix, every off-diagonal non-zero
+            rho = float(rs.choice([0.6, 0.9, -0.7]))
+            idx = np.arange(n)
+            v = t * rho ** np.abs(idx[:, None] - idx[None, :]) * np.sqrt(np.outer(rs.uniform(0.7, 1.4, n), np.ones(n)))
+            v = (v + v.T) / 2 + 0.0
+            v = v if np.linalg.eigvalsh(v).min() > 0.02 * t else _spd(rs, n, t)
         else:
             v = _spd(rs, n, t)
     elif shape == "sparse":
@@ -334,9 +417,37 @@ def _gen_form(rs, form, n, s):
         raise ValueError(form)
     return fam, v, G.precision_from_form(fam, v, n)
 
-def _gen_model(cuqi, rs, kind, m, n, geom=None):
+def _mk_geom(cuqi, spec):
+    if spec["type"] == "image":
+        return cuqi.geometry.Image2D(tuple(spec["shape"]), order=spec["order"])
+    return cuqi.geometry.Continuous2D(tuple(spec["shape"]))
+
+def _fun_perm(spec, n):
+    """Q with  Q @ x_par == C-order flattened function values, from the documented meaning of the geometry:
+    Image2D(shape, order): image = x.reshape(shape, order=order); Continuous2D: parameters are the (flat) function values."""
+    if spec is None or spec["type"] != "image":
+        return np.eye(n)
+    idx = np.arange(n).reshape(tuple(spec["shape"]), order=spec["order"]).ravel()
+    return np.eye(n)[idx]
+
+def _gen_model_2d(cuqi, rs, m, n, dom, rng_spec, amp):
+    """Function-backed LinearModel whose callables act on function values (images); returns its parameter-space matrix."""
+    T = rs.standard_normal((m, n)) * amp
+    dshape = tuple(dom["shape"]) if dom["type"] == "image" else None
+    rshape = tuple(rng_spec["shape"]) if (rng_spec is not None and rng_spec["type"] == "image") else None
+    def fwd(f):
+        out = T @ np.ravel(np.asarray(f))
+        return out.reshape(rshape) if rshape is not None else out
+    def adj(g):
+        out = T.T @ np.ravel(np.asarray(g))
+        return out.reshape(dshape) if dshape is not None else out
+    model = cuqi.model.LinearModel(fwd, adj, range_geometry=(m if rng_spec is None else _mk_geom(cuqi, rng_spec)), domain_geometry=_mk_geom(cuqi, dom))
+    A = _fun_perm(rng_spec, m).T @ T @ _fun_perm(dom, n)
+    return A, model
+
+def _gen_model(cuqi, rs, kind, m, n, geom=None, amp=None):
     dg = {} if geom is None else {"domain_geometry": geom}
-    A = rs.standard_normal((m, n)) * rs.choice([0.4, 1.0, 2.5])
+    A = rs.standard_normal((m, n)) * (rs.choice([0.4, 1.0, 2.5]) if amp is None else amp)
     if kind in ("sparse",):
         A = A * (rs.uniform(size=(m, n)) < 0.7)
         if not np.any(A):
@@ -522,7 +633,8 @@ def _states(rs, n, xm, C):
     elif which == 2:
         b = xm + sd * rs.standard_normal(n) * 300.0
     else:
-        b = rs.standard_normal(n) * rs.choice([10.0, 1000.0])
+        size = max(sd, float(np.max(np.abs(xm))))
+        b = rs.standard_normal(n) * min(float(rs.choice([10.0, 1000.0])) * size, max(1e-4 / SOLVER_TOL, 10.0 * size))
     return a, b
 
 def _read_affine(ctx, cfg, drawer, xm, C, rs, states, tag, cond, check_state_indep=True):
@@ -650,31 +762,38 @@ def _gen_rto_problem(cuqi, case, rs):
     for attempt in range(6):
         ref = {}
         # ---- prior
+        dom = case.get("dom")
+        # overall variance scale of the prior (10^k when the descriptor carries the scale axis)
+        sp = float(10.0 ** p["k"]) * float(rs.uniform(0.5, 2.0)) if "k" in p else None
+        msd = 1.0 if sp is None else np.sqrt(sp)
         if p["kind"] == "gaussian":
-            fam, val, P0 = _gen_form(rs, p["form"], n, float(rs.choice([0.2, 1.0, 5.0])))
+            fam, val, P0 = _gen_form(rs, p["form"], n, float(rs.choice([0.2, 1.0, 5.0])) if sp is None else sp)
             if p["mean"] == "vector":
-                mu_lib = rs.standard_normal(n) * 2; mu = mu_lib.copy()
+                mu_lib = rs.standard_normal(n) * 2 * msd; mu = mu_lib.copy()
             elif p["mean"] == "scalar":
-                mu_lib = float(rs.choice([0.7, -1.3, 2.0])); mu = np.full(n, mu_lib)
+                mu_lib = float(rs.choice([0.7, -1.3, 2.0])) * msd; mu = np.full(n, mu_lib)
             else:
                 mu_lib = 0; mu = np.zeros(n)
             ref.update(prior_kw=fam, prior_val=val, mu_lib=mu_lib)
-            mk_prior = lambda mu_lib=mu_lib, fam=fam, val=val: cuqi.distribution.Gaussian(mu_lib, **{fam: val}, geometry=n, name="x")
+            pg = (lambda: n) if dom is None else (lambda dom=dom: _mk_geom(cuqi, dom))
+            mk_prior = lambda mu_lib=mu_lib, fam=fam, val=val, pg=pg: cuqi.distribution.Gaussian(mu_lib, **{fam: val}, geometry=pg(), name="x")
             geom = None
         elif p["kind"] == "gmrf":
             N, pd = p["N"], p["pd"]
-            delta = float(rs.choice([0.5, 3.0, 20.0]))
+            delta = float(rs.choice([0.5, 3.0, 20.0])) if sp is None else 1.0 / sp
             D = S.diff_op(N, p["bc"], p["order"], pd)
             reg = 0.0 if p["bc"] == "zero" else np.sqrt(np.finfo(float).eps)
             P0 = delta * (D.T @ D + reg * np.eye(n))
             ref.update(gmrf_P1=D.T @ D + reg * np.eye(n))
             if p["mean"] == "vector":
-                mu_lib = rs.standard_normal(n) * 2; mu = mu_lib.copy()
+                mu_lib = rs.standard_normal(n) * 2 * msd; mu = mu_lib.copy()
             elif p["mean"] == "scalar":
                 mu_lib = 0.7; mu = np.full(n, 0.7)
             else:
                 mu_lib = np.zeros(n); mu = np.zeros(n)
             geom = (lambda N=N: cuqi.geometry.Continuous1D(N)) if pd == 1 else (lambda N=N: cuqi.geometry.Image2D((N, N)))
+            if dom is not None:
+                geom = lambda dom=dom: _mk_geom(cuqi, dom)
             mk_prior = lambda mu_lib=mu_lib, delta=delta, geom=geom: cuqi.distribution.GMRF(mu_lib, delta, bc_type=p["bc"], order=p["order"], geometry=geom(), name="x")
         else:
             means, sqs, precs = [], [], []
@@ -691,11 +810,18 @@ def _gen_rto_problem(cuqi, case, rs):
         # ---- likelihoods
         As, Ps, ds, mods, noise = [], [], [], [], []
         for l in case["liks"]:
-            A, model = _gen_model(cuqi, rs, l["model"], l["m"], n, geom() if geom is not None else None)
-            nfam, nval, P = _gen_form(rs, l["noise"], l["m"], float(rs.choice([0.05, 0.3, 1.0, 4.0])))
+            scaled = ("k" in l) or (sp is not None)
+            sn = float(10.0 ** l["k"]) * float(rs.uniform(0.5, 2.0)) if "k" in l else float(rs.choice([0.05, 0.3, 1.0, 4.0]))
+            # with the scale axis the operator is scaled so that data and prior stay comparably informative
+            amp = float(np.sqrt(sn / (sp if sp is not None else 1.0)) * rs.choice([0.4, 1.0, 2.5])) if scaled else None
+            if dom is not None:
+                A, model = _gen_model_2d(cuqi, rs, l["m"], n, dom, l.get("rng"), amp if amp is not None else float(rs.choice([0.4, 1.0, 2.5])))
+            else:
+                A, model = _gen_model(cuqi, rs, l["model"], l["m"], n, geom() if geom is not None else None, amp)
+            nfam, nval, P = _gen_form(rs, l["noise"], l["m"], sn)
             fam, val = nfam, nval
             As.append(A); Ps.append(P); mods.append(model); noise.append((fam, val))
-            ds.append(A @ (mu + rs.standard_normal(n)) + rs.standard_normal(l["m"]))
+            ds.append(A @ (mu + msd * rs.standard_normal(n)) + np.sqrt(sn if scaled else 1.0) * rs.standard_normal(l["m"]))
         xm, C, H, rhs = G.posterior(As, Ps, ds, P0, mu)
         cond = float(np.linalg.cond(H))
         if cond <= COND_MAX:
@@ -931,18 +1057,18 @@ def _run_reuse_rto(case, ctx):
             if p["mean"] == "scalar":
                 v = float(rs.choice([-0.4, 1.9, 3.1])); mu = np.full(n, v)
             else:
-                v = rs.standard_normal(n) * 2; mu = v.copy()
+                v = rs.standard_normal(n) * 2 * 10.0 ** (p.get("k", 0) / 2.0); mu = v.copy()
             action = lambda v=v: setattr(post.prior, "mean", v)
         elif mut == "prior_matrix":
             if p["kind"] == "gmrf":
-                delta = float(rs.choice([0.2, 1.5, 8.0, 40.0])); P0 = delta * prob["gmrf_P1"]
+                delta = float(rs.choice([0.2, 1.5, 8.0, 40.0])) * 10.0 ** (-p.get("k", 0)); P0 = delta * prob["gmrf_P1"]
                 action = lambda delta=delta: setattr(post.prior, "prec", delta)
             else:
-                fam, v, P0 = _gen_form(rs, p["form"], n, float(rs.choice([0.1, 0.6, 3.0])))
+                fam, v, P0 = _gen_form(rs, p["form"], n, float(rs.choice([0.1, 0.6, 3.0])) * 10.0 ** p.get("k", 0))
                 action = lambda fam=fam, v=v: setattr(post.prior, fam, v)
         else:                                   # noise_matrix of the last likelihood
             j = len(case["liks"]) - 1
-            fam, v, Pj = _gen_form(rs, case["liks"][j]["noise"], case["liks"][j]["m"], float(rs.choice([0.02, 0.5, 2.5])))
+            fam, v, Pj = _gen_form(rs, case["liks"][j]["noise"], case["liks"][j]["m"], float(rs.choice([0.02, 0.5, 2.5])) * 10.0 ** case["liks"][j].get("k", 0))
             Ps[j] = Pj
             action = lambda fam=fam, v=v, j=j: setattr(_likelihood_dists(post)[j], fam, v)
         xm2, C2, H2, rhs2 = G.posterior(prob["As"], Ps, prob["ds"], P0, mu)
